@@ -76,7 +76,7 @@ SemEnds(s, name, hi, p) ==
                            /\ q <= Len(s) + 1
                            /\ \A i \in p..(p + 5) : s[i] \in Upper
                            /\ \A i \in (p + 6)..(q - 1) : s[i] \in Upper \cup Digits}
-    [] name = "AMT"  -> {q \in (p + 1)..(p + hi) :
+    [] name \in {"AMT", "AMT0"} -> {q \in (p + 1)..(p + hi) :
                            /\ q <= Len(s) + 1
                            /\ s[p] \in Digits
                            /\ \A i \in p..(q - 1) : s[i] \in Digits \cup {","}
@@ -134,6 +134,7 @@ SemTyp(name) ==
     [] name = "OFFS" -> <<"0", "1", "0", "0">> [] name = "SIGN" -> <<"+">> [] name = "DC" -> <<"C">>
     [] name = "CUR" -> <<"U", "S", "D">> [] name = "BIC" -> <<"D", "E", "U", "T", "D", "E", "F", "F">>
     [] name = "AMT" -> <<"1", "2", "3", "4", ",", "5", "6">>
+    [] name = "AMT0" -> <<"1", "2", ",", "5", "6">>      \* an amount / rate that may be zero
 SemVar(name) ==     \* ordered, so that a variant can be named by its index
   CASE name = "DATE" -> << <<"2", "4", "1", "3", "0", "1">>, <<"2", "3", "0", "2", "2", "9">>, <<"2", "4", "0", "2", "2", "9">>,
                            <<"2", "4", "0", "7", "1">>, <<"2", "4", "0", "7", "1", "A">>, <<"2", "4", "0", "7", "0", "0">> >>
@@ -149,6 +150,7 @@ SemVar(name) ==     \* ordered, so that a variant can be named by its index
                            <<"d", "e", "u", "t", "d", "e", "f", "f">>, <<"D", "E", "U", "1", "D", "E", "F", "F">>,
                            <<"D", "E", "U", "T", "D", "E", "2", "A">> >>
     [] name = "AMT"  -> << <<"1", ",">>, <<"a", "b", "c">>, <<>> >>
+    [] name = "AMT0" -> << <<"1", ",">>, <<"a", "b", "c">>, <<>>, <<"0", ",">>, <<"0", ",", "0", "0">>, <<"0", ",", "5">> >>
 
 RECURSIVE Typ(_), TypSeq(_, _), Vars(_), GenSeq(_, _, _), VarsSeq(_, _)
 TypSeq(cs, k) == IF k > Len(cs) THEN <<>> ELSE Typ(cs[k]) \o TypSeq(cs, k + 1)
@@ -293,12 +295,15 @@ Formats == {
   F("77B", <<Lines(1, 3, <<Cl("x", 1, 35)>>)>>),
   F("79",  <<Lines(1, 35, <<Cl("x", 1, 50)>>)>>),
   F("86",  <<Lines(1, 6, <<Cl("x", 1, 65)>>)>>),
+  FA("19",  <<Sem("AMT", 17)>>),
+  FA("36",  <<Sem("AMT", 12)>>),
+  FA("37H", <<Sem("DC", 1), Opt(<<Lit("N")>>), Sem("AMT0", 12)>>),
   FA("90C", <<Cl("n", 1, 5), Sem("CUR", 3), Sem("AMT", 15)>>),
   FA("90D", <<Cl("n", 1, 5), Sem("CUR", 3), Sem("AMT", 15)>>)
 }
 
 (* field types with formats the algebra does not express faithfully (listed as not covered):
-   19, 36, 37H (pure amounts: C06), 23, 23B (code list + conditional parts), 25P, 28D (index <= total),
+   23, 23B (code list + conditional parts), 25P, 28D (index <= total),
    50F, 52B-57B (either/or of two optional lines), 61, 77T (9000z) *)
 
 VARIABLES fld, content
